@@ -36,7 +36,7 @@ ASSUMPTIONS = [
 REQUIRED_MONITORS = ["only_documented_tokens_change", "float_size_line", "builds_and_agrees_with_double",
                      "spelling_selects_type", "every_part_has_requested_dtype"]
 REQUIRED_BUCKETS = {"quick": ["a:float32", "a:float64", "a:longdouble", "b:fragment", "c:float32", "c:longdouble",
-                              "d:spelling", "c:dispersity-with-cutoff", "system-build:float32", "system-build:float64", "system-build:longdouble", "frag:adjacent-double", "frag:string", "frag:hexfloat", "frag:suffixed",
+                              "d:spelling", "c:dispersity-with-cutoff", "switch:single-precision-libraries-not-allowed", "system-build:float32", "system-build:float64", "system-build:longdouble", "frag:adjacent-double", "frag:string", "frag:hexfloat", "frag:suffixed",
                               "frag:int-promotion", "frag:exponent-identifier"]}
 REQUIRED_BUCKETS["thorough"] = REQUIRED_BUCKETS["quick"]
 
@@ -275,6 +275,8 @@ def gen_cases(tier, seed):
     for m, dd in (("sphere", "float32"), ("sphere", "float64"), ("sphere", "longdouble"), ("cylinder", "float32"),
                   ("hardsphere", "float64"), ("core_shell_sphere", "longdouble")):
         cases.append({"id": "system/%s-%s" % (m, dd), "kind": "system", "model": m, "dtype": dd, "group": "sys-" + m, "cost": 3})
+    for m, sp in (("sphere", "single!"), ("cylinder", "single"), ("sphere@hardsphere", "float32")):
+        cases.append({"id": "noflag/%s-%s" % (m, sp), "kind": "noflag", "model": m, "spelling": sp, "group": "nf-" + m, "cost": 3})
     for e in COMPOSITES:
         cases.append({"id": "composite/" + e, "kind": "composite", "expr": e, "group": "comp-" + e, "cost": 4})
     return cases
@@ -465,6 +467,40 @@ def run_composite(case, rec):
     rec.set_shape(("composite", expr), True)
 
 
+def run_noflag(case, rec):
+    """kerneldll.ALLOW_SINGLE_PRECISION_DLLS = False (documented switch): a single-precision request is served by the
+    64-bit library and must then be a double-precision model that agrees with the ordinary double build."""
+    import subprocess, json, tempfile
+    name = case["model"]
+    prog = (
+        "import json, numpy as np\n"
+        "from sasmodels import core, kerneldll, direct_model\n"
+        "kerneldll.ALLOW_SINGLE_PRECISION_DLLS = False\n"
+        "q = [np.array([0.011, 0.043, 0.17])]\n"
+        "m = core.load_model(%r, dtype=%r, platform='dll')\n"
+        "I = direct_model.call_kernel(m.make_kernel(q), {})\n"
+        "m8 = core.load_model(%r, dtype='double!', platform='dll')\n"
+        "I8 = direct_model.call_kernel(m8.make_kernel(q), {})\n"
+        "print('RTMOUT ' + json.dumps({'dtype': str(np.dtype(m.dtype)), 'dll': (getattr(m, 'dllpath', None) or m.P.dllpath).split('/')[-1], 'I': [float(x) for x in I],"
+        " 'I8': [float(x) for x in I8], 'result_dtype': str(np.asarray(I).dtype)}))\n" % (name, case["spelling"], name))
+    env = dict(os.environ, SAS_DLL_PATH=os.path.join(os.environ.get("RTM_SCRATCH", tempfile.gettempdir()), "noflag-dll"))
+    r = subprocess.run([core.PY, "-c", prog], capture_output=True, text=True, timeout=600, env=env)
+    out = None
+    for line in r.stdout.splitlines():
+        if line.startswith("RTMOUT "):
+            out = json.loads(line[7:])
+    rec.check("process_survives", r.returncode == 0 and out is not None,
+              {"model": name, "spelling": case["spelling"], "switch": "ALLOW_SINGLE_PRECISION_DLLS=False", "exit": r.returncode,
+               "stderr": r.stderr[-400:]})
+    if out is not None:
+        ok = core.close(np.array(out["I"]), np.array(out["I8"]), 1e-12, 0.0) and out["dtype"] == "float64" \
+            and out["dll"].startswith("sas64_")
+        rec.check("builds_and_agrees_with_double", ok,
+                  None if ok else dict(out, model=name, spelling=case["spelling"], switch="ALLOW_SINGLE_PRECISION_DLLS=False"))
+    rec.bucket("switch:single-precision-libraries-not-allowed")
+    rec.set_shape(("noflag", name, case["spelling"]), True)
+
+
 def run_system(case, rec):
     """The distribution path (core.precompile_dlls -> make_dll(system=True)): the C text handed to the compiler is the
     converted text, and the library evaluates like the ordinary build of that precision."""
@@ -521,6 +557,8 @@ def run_system(case, rec):
 def run_case(case, rec):
     if case["kind"] == "system":
         return run_system(case, rec)
+    if case["kind"] == "noflag":
+        return run_noflag(case, rec)
     {"src": run_src, "frag": run_frag, "build": run_build, "spell": run_spell, "composite": run_composite}[case["kind"]](case, rec)
 
 
